@@ -1,4 +1,5 @@
 import L21.Props.C09
+import L21.Props.C17Sorted
 #print axioms L21.Place.c09_touch
 #print axioms L21.Place.c09_ref_reflection
 #print axioms L21.Place.c09_all_abs
@@ -12,3 +13,4 @@ import L21.Props.C09
 #print axioms L21.Place.Placed_unique
 #print axioms L21.Place.c09_order_indep
 #print axioms L21.Place.c09_listing_indep
+#print axioms L21.Place.c09_sorted_program_in_listing_order
